@@ -566,7 +566,7 @@ class Renderer:
             if self.feat.get("comments", True) and ch.bool(1, 8):
                 if prev_alt:
                     out.append("")      # a plain comment directly after a `!*` block would belong to it
-                out.append(ind + "! " + ch.choice(["plain comment", "it's", 'say "hi"', "x = f(1) ! not code", "end module"]))
+                out.append(ind + "! " + ch.choice(["zc0x0w0 plain comment", "it's zc0x0w1", 'say "hi" zc0x0w2', "x = f(1) ! not code zc0x0w3", "end module"]))
             if self.feat.get("blank_lines", True) and ch.bool(1, 8):
                 out.append("")
             # preceding docs
@@ -627,13 +627,13 @@ class Renderer:
         lead = self.flag("cont-lead-amp", 1, 3)
         first = ind + txt[:k].rstrip() + " &"
         if self.ch.bool(1, 4):
-            first += " ! trailing comment"
+            first += " ! trailing comment zc0x2w0"
         second = ind + "    " + ("& " if lead else "") + txt[k:].lstrip()
         mid = []
         if self.ch.bool(1, 6):
             mid.append("")
         if self.ch.bool(1, 6):
-            mid.append(ind + "! comment between continuation lines")
+            mid.append(ind + "! comment between continuation lines zc0x3w0")
         self.used.setdefault("continuation", set()).add("lead&" if lead else "plain")
         return [first] + mid + [second]
 
@@ -661,7 +661,7 @@ class Renderer:
             if self.feat.get("comments", True) and ch.bool(1, 8):
                 if prev_alt:
                     out.append("")
-                out.append(cchar() + " " + ch.choice(["plain comment", "it's", "x = f(1)", "end module"]))
+                out.append(cchar() + " " + ch.choice(["zc0x1w0 plain comment", "it's zc0x1w1", "x = f(1) zc0x1w2", "end module"]))
             if ch.bool(1, 10):
                 out.append(ch.choice(["", "   ", "      "]))
             if ln.pre:
@@ -688,7 +688,7 @@ class Renderer:
                     cc = ch.choice(list("&+$1*x.!>#")) if self.feat.get("fixed_contchars", True) else "&"
                     self.used.setdefault("fixed-contchar", set()).add(cc)
                     if self.feat.get("comments", True) and ch.bool(1, 4):
-                        between[len(rows)] = [ch.choice(["C between", "c it's", "* x = 1", "! plain", "", "   "])
+                        between[len(rows)] = [ch.choice(["C between zc0x4w0", "c it's zc0x4w1", "* x = 1", "! plain zc0x4w2", "", "   "])
                                               for _ in range(ch.count(1, 2))]
                         self.used.setdefault("fixed-comment-between-continuation", set()).add("yes")
                     rows.append("     " + cc + pc)
